@@ -2775,7 +2775,9 @@ class LinearOperator(object):
         from linear_operator.operators.zero_linear_operator import ZeroLinearOperator
 
         if isinstance(other, ZeroLinearOperator):
-            return self
+            # Adding zero changes nothing but the (broadcast) shape; incompatible shapes raise
+            shape = torch.broadcast_shapes(self.shape, other.shape)
+            return self if self.shape == shape else self.expand(shape)
         elif isinstance(other, DiagLinearOperator):
             return AddedDiagLinearOperator(self, other)
         elif isinstance(other, RootLinearOperator):
